@@ -658,6 +658,29 @@ def gen_verifier(repo):
         fold_ok = bool(re.search(r"let\s+u_cap\s*=\s*blinded_cred_secrets\s*\.\s*hidden_attributes\s*\.\s*iter\s*\(\s*\)\s*\.\s*fold\s*\(", f[1], re.S)) and \
                   bool(re.search(r"blinded_cred_secrets_correctness_proof\s*\.\s*m_caps\s*\.\s*get\s*\(\s*attr\s*\)\s*\.\s*ok_or_else", f[1], re.S))
     out.append("/-- `_check_blinded_credential_secrets_correctness_proof`: `u_cap` is folded over `blinded_cred_secrets.hidden_attributes`\n    (the declared set), each response taken from `m_caps.get(attr).ok_or_else(..)` -/\ndef blindedFoldOverDeclaredHidden : Bool := %s\n" % ("true" if fold_ok else "false"))
+    # ---- request consistency: SET equality of revealed names and of predicates
+    f = find_fn(ver, "_check_verify_params_consistency")
+    rev_eq = pred_eq = False
+    if f:
+        rev_eq = bool(re.search(r"let\s+proof_revealed_attrs\s*=\s*BTreeSet::from_iter\s*\(\s*proof_for_credential\s*\.\s*primary_proof\s*\.\s*eq_proof\s*\.\s*revealed_attrs\s*\.\s*keys\s*\(\s*\)\s*\.\s*cloned\s*\(\s*\)\s*,?\s*\)\s*;\s*if\s+proof_revealed_attrs\s*!=\s*credential\s*\.\s*sub_proof_request\s*\.\s*revealed_attrs\s*\{\s*return\s+Err", f[1], re.S))
+        pred_eq = bool(re.search(r"let\s+proof_predicates\s*=\s*proof_for_credential\s*\.\s*primary_proof\s*\.\s*ne_proofs\s*\.\s*iter\s*\(\s*\)\s*\.\s*map\s*\(\s*\|ne_proof\|\s*ne_proof\s*\.\s*predicate\s*\.\s*clone\s*\(\s*\)\s*\)\s*\.\s*collect::<BTreeSet<Predicate>>\s*\(\s*\)\s*;\s*if\s+proof_predicates\s*!=\s*credential\s*\.\s*sub_proof_request\s*\.\s*predicates\s*\{\s*return\s+Err", f[1], re.S))
+    out.append("/-- `_check_verify_params_consistency`: the SET of names in `eq_proof.revealed_attrs` must equal the requested set -/\ndef revealedSetEquality : Bool := %s\n" % ("true" if rev_eq else "false"))
+    out.append("/-- … and the SET of proven predicates must equal the requested set (a repeated predicate proof cannot stand in for a missing one) -/\ndef predicateSetEquality : Bool := %s\n" % ("true" if pred_eq else "false"))
+    # ---- holder: names covered by the key proof
+    f = find_fn(prv, "_check_credential_key_correctness_proof")
+    exempt_ok = names_ok = False
+    if f:
+        exempt_ok = bool(re.search(r"for\s+r_key\s+in\s+pr_pub_key\s*\.\s*r\s*\.\s*keys\s*\(\s*\)\s*\{\s*if\s*!\s*correctness_names\s*\.\s*contains\s*\(\s*r_key\s*\)\s*\{\s*if\s+r_key\s*!=\s*\"master_secret\"\s*\{\s*return\s+Err", f[1], re.S))
+        names_ok = bool(re.search(r"for\s+correctness_name\s+in\s*&\s*correctness_names\s*\{\s*if\s*!\s*pr_pub_key\s*\.\s*r\s*\.\s*contains_key\s*\(\s*correctness_name\s*\.\s*as_str\s*\(\s*\)\s*\)\s*\{\s*return\s+Err", f[1], re.S))
+    out.append("/-- `_check_credential_key_correctness_proof`: every generator of the key must be named in `xr_cap`, the ONLY exemption being the\n    legacy name `master_secret` -/\ndef keyProofExemptsOnlyMasterSecret : Bool := %s\n" % ("true" if exempt_ok else "false"))
+    out.append("/-- … and every name of `xr_cap` must be a generator of the key (no exemption), before `r[key]` is indexed -/\ndef keyProofNamesMustBeInKey : Bool := %s\n" % ("true" if names_ok else "false"))
+    # ---- issuer: the committed-attribute loop runs over the DECLARED commitments
+    f = find_fn(iss, "_check_blinded_credential_secrets_correctness_proof")
+    comm_ok = False
+    if f:
+        comm_ok = bool(re.search(r"for\s*\(\s*key\s*,\s*value\s*\)\s+in\s*&\s*blinded_cred_secrets\s*\.\s*committed_attributes\s*\{", f[1], re.S)) and \
+                  bool(re.search(r"\.\s*r_caps\s*\.\s*get\s*\(\s*key\s*\)\s*\.\s*ok_or_else", f[1], re.S))
+    out.append("/-- `_check_blinded_credential_secrets_correctness_proof`: the commitment loop runs over `blinded_cred_secrets.committed_attributes`\n    (every declared commitment needs `m_caps` and `r_caps` entries) -/\ndef blindedLoopOverDeclaredCommitted : Bool := %s\n" % ("true" if comm_ok else "false"))
     out.append(FOOTER)
     return "".join(out)
 
